@@ -411,6 +411,20 @@ func (x *Exec) prepareCall(fr *frame, call *ssa.CallCommon) (fn Value, args []Va
 		fn = v
 	} else {
 		recv := v.(Iface)
+		if recv.t == nil && call.Method.Pkg() != nil && x.eng.isNoopPkg(call.Method.Pkg().Path()) {
+			// nil interface of a type declared in a no-op package (metrics/logging): such values are
+			// what the no-op constructors of that package return; their methods are no-ops as well.
+			sig := call.Method.Type().(*types.Signature)
+			return NativeFn(func(x *Exec, fr *frame, a []Value) Value {
+				if sig.Results().Len() == 0 {
+					return nil
+				}
+				if sig.Results().Len() == 1 {
+					return zero(sig.Results().At(0).Type())
+				}
+				return zero(sig.Results())
+			}), nil
+		}
 		if recv.t == nil {
 			x.tpanic("invalid memory address or nil pointer dereference (method call on nil interface " + call.Method.Name() + ") in " + fr.fn.String())
 		}
